@@ -5,145 +5,156 @@
 
 shapes! {
     // ---- arity 1: every storage kind in & and &mut position, entities, bit sets ------------------------------
-    s01 "S01" "s0" [seq lend lendfe lendget par tree]
+    s01 "S01" "s0" [seq lend lendfe lendget lendgetw par tree]
         |x| { R!(x a C0); } => (&a,);
-    s02 "S02" "m2" [seq lend lendfe lendget par tree]
+    s02 "S02" "m2" [seq lend lendfe lendget lendgetw par tree]
         |x| { W!(x a C2); } => (&mut a,);
     // bare (non-tuple) join of a single storage
-    s03 "S03" "s4" [seq lend lendfe lendget par tree]
+    s03 "S03" "s4" [seq lend lendfe lendget lendgetw par tree]
         |x| { R!(x a C4); } => &a;
-    s04 "S04" "m6" [seq lend lendfe lendget par tree]
+    s04 "S04" "m6" [seq lend lendfe lendget lendgetw par tree]
         |x| { W!(x a C6); } => (&mut a,);
-    s05 "S05" "s8" [seq lend lendfe lendget par tree]
+    s05 "S05" "s8" [seq lend lendfe lendget lendgetw par tree]
         |x| { R!(x a C8); } => (&a,);
-    s06 "S06" "m10 e" [seq lend lendfe lendget par tree]
+    s06 "S06" "m10 e" [seq lend lendfe lendget lendgetw par tree]
         |x| { W!(x a C10); E!(x en); } => (&mut a, &en);
-    s07 "S07" "s12" [seq lend lendfe lendget par tree]
+    s07 "S07" "s12" [seq lend lendfe lendget lendgetw par tree]
         |x| { R!(x a C12); } => (&a,);
-    s08 "S08" "m13" [seq lend lendfe lendget]
+    s08 "S08" "m13" [seq lend lendfe lendget lendgetw]
         |x| { W!(x a C13); } => (&mut a,);
-    s09 "S09" "e" [seq lend lendfe lendget par tree]
+    s09 "S09" "e" [seq lend lendfe lendget lendgetw par tree]
         |x| { E!(x en); } => (&en,);
-    s10 "S10" "Bb0" [seq lend lendfe lendget par tree]
+    s10 "S10" "Bb0" [seq lend lendfe lendget lendgetw par tree]
         |x| { } => (&x.b0,);
-    s11 "S11" "BM3" [seq lend lendfe lendget par tree]
+    s11 "S11" "BM3" [seq lend lendfe lendget lendgetw par tree]
         |x| { R!(x a C3); } => (a.mask(),);
-    s12 "S12" "BAb0b1" [seq lend lendfe lendget par tree]
+    s12 "S12" "BAb0b1" [seq lend lendfe lendget lendgetw par tree]
         |x| { } => (BitSetAnd(&x.b0, &x.b1),);
     // &BitSetOr<..> (reference form)
-    s13 "S13" "BOb0M5" [seq lend lendfe lendget par tree]
+    s13 "S13" "BOb0M5" [seq lend lendfe lendget lendgetw par tree]
         |x| { R!(x a C5); let o = BitSetOr(&x.b0, a.mask()); } => (&o,);
-    s14 "S14" "BXb1b2" [seq lend lendfe lendget par tree]
+    s14 "S14" "BXb1b2" [seq lend lendfe lendget lendgetw par tree]
         |x| { } => (BitSetXor(&x.b1, &x.b2),);
-    s15 "S15" "BAb0NM3" [seq lend lendfe lendget par tree]
+    s15 "S15" "BAb0NM3" [seq lend lendfe lendget lendgetw par tree]
         |x| { R!(x a C3); } => (BitSetAnd(&x.b0, BitSetNot(a.mask())),);
     // ---- unconstrained shapes (2^24 indices): only with take=N -----------------------------------------------
     s16 "S16" "BNb0" [seq lend lendget unc]
+
         |x| { } => (BitSetNot(&x.b0),);
     s17 "S17" "?s0" [seq lend lendget unc]
+
         |x| { R!(x a C0); } => ((&a).maybe(),);
     s18 "S18" "n2 ?s0" [seq lend lendget unc]
+
         |x| { R!(x a C2); R!(x b C0); } => (!&a, (&b).maybe());
     s19 "S19" "??s1 ?Bb2" [seq lend lendget unc]
+
         |x| { R!(x a C1); } => ((&a).maybe().maybe(), (&x.b2).maybe());
     s20 "S20" "t2" [lend lendget unc]
+
         |x| { W!(x a C2); } => (a.entries(),);
     // ---- arity 2 -----------------------------------------------------------------------------------------
-    s21 "S21" "s0 s1" [seq lend lendfe lendget par tree]
+    s21 "S21" "s0 s1" [seq lend lendfe lendget lendgetw par tree]
         |x| { R!(x a C0); R!(x b C1); } => (&a, &b);
-    s22 "S22" "s0 m3" [seq lend lendfe lendget par tree]
+    s22 "S22" "s0 m3" [seq lend lendfe lendget lendgetw par tree]
         |x| { R!(x a C0); W!(x b C3); } => (&a, &mut b);
-    s23 "S23" "m4 n6" [seq lend lendfe lendget par tree]
+    s23 "S23" "m4 n6" [seq lend lendfe lendget lendgetw par tree]
         |x| { W!(x a C4); R!(x b C6); } => (&mut a, !&b);
-    s24 "S24" "e ?m1" [seq lend lendfe lendget par tree]
+    s24 "S24" "e ?m1" [seq lend lendfe lendget lendgetw par tree]
         |x| { E!(x en); W!(x a C1); } => (&en, (&mut a).maybe());
-    s25 "S25" "s9 Bb1" [seq lend lendfe lendget par tree]
+    s25 "S25" "s9 Bb1" [seq lend lendfe lendget lendgetw par tree]
         |x| { R!(x a C9); } => (&a, &x.b1);
-    s26 "S26" "r0 s2" [seq lend lendfe lendget par tree]
+    s26 "S26" "r0 s2" [seq lend lendfe lendget lendgetw par tree]
         |x| { R!(x a C0); R!(x b C2); let ra = a.restrict(); } => (&ra, &b);
-    s27 "S27" "w1 e" [seq lend lendfe lendget par tree]
+    s27 "S27" "w1 e" [seq lend lendfe lendget lendgetw par tree]
         |x| { W!(x a C1); E!(x en); let mut wa = a.restrict_mut(); } => (&mut wa, &en);
-    s28 "S28" "w12 s0" [seq lend lendfe lendget]
+    s28 "S28" "w12 s0" [seq lend lendfe lendget lendgetw]
         |x| { W!(x a C12); R!(x b C0); let mut wa = a.restrict_mut(); } => (&mut wa, &b);
     s29 "S29" "d3" [seq lend lendfe]
+
         |x| { W!(x a C3); } => (a.drain(),);
     s30 "S30" "d5 e" [seq lend lendfe]
+
         |x| { W!(x a C5); E!(x en); } => (a.drain(), &en);
-    s31 "S31" "t0 e" [lend lendfe lendget]
+    s31 "S31" "t0 e" [lend lendfe lendget lendgetw]
         |x| { W!(x a C0); E!(x en); } => (a.entries(), &en);
-    s32 "S32" "t7 s6" [lend lendfe lendget]
+    s32 "S32" "t7 s6" [lend lendfe lendget lendgetw]
         |x| { W!(x a C7); R!(x b C6); } => (a.entries(), &b);
-    s33 "S33" "s14" [seq lend lendfe lendget]
+    s33 "S33" "s14" [seq lend lendfe lendget lendgetw]
         |x| { } => (&x.cs14,);
-    s34 "S34" "m15 e" [seq lend lendfe lendget]
+    s34 "S34" "m15 e" [seq lend lendfe lendget lendgetw]
         |x| { E!(x en); } => (&mut x.cs15, &en);
     s35 "S35" "c14 s0" [seq lend lendfe]
+
         |x| { R!(x a C0); } => (std::mem::take(&mut x.cs14), &a);
-    s36 "S36" "m0 s14" [seq lend lendfe lendget]
+    s36 "S36" "m0 s14" [seq lend lendfe lendget lendgetw]
         |x| { W!(x a C0); } => (&mut a, &x.cs14);
-    s37 "S37" "m11 s10" [seq lend lendfe lendget par tree]
+    s37 "S37" "m11 s10" [seq lend lendfe lendget lendgetw par tree]
         |x| { W!(x a C11); R!(x b C10); } => (&mut a, &b);
     s38 "S38" "d13 s12" [seq lend lendfe]
+
         |x| { W!(x a C13); R!(x b C12); } => (a.drain(), &b);
     // ---- arity 3 -----------------------------------------------------------------------------------------
-    s39 "S39" "s0 m2 n4" [seq lend lendfe lendget par tree]
+    s39 "S39" "s0 m2 n4" [seq lend lendfe lendget lendgetw par tree]
         |x| { R!(x a C0); W!(x b C2); R!(x c C4); } => (&a, &mut b, !&c);
-    s40 "S40" "e s5 ?s7" [seq lend lendfe lendget par tree]
+    s40 "S40" "e s5 ?s7" [seq lend lendfe lendget lendgetw par tree]
         |x| { E!(x en); R!(x a C5); R!(x b C7); } => (&*en, &a, (&b).maybe());
-    s41 "S41" "m9 BOb0b3 s11" [seq lend lendfe lendget par tree]
+    s41 "S41" "m9 BOb0b3 s11" [seq lend lendfe lendget lendgetw par tree]
         |x| { W!(x a C9); R!(x b C11); } => (&mut a, BitSetOr(&x.b0, &x.b3), &b);
-    s42 "S42" "s13 m12 e" [seq lend lendfe lendget]
+    s42 "S42" "s13 m12 e" [seq lend lendfe lendget lendgetw]
         |x| { R!(x a C13); W!(x b C12); E!(x en); } => (&a, &mut b, &en);
-    s43 "S43" "BNb2 s6 ?n8" [seq lend lendfe lendget par tree]
+    s43 "S43" "BNb2 s6 ?n8" [seq lend lendfe lendget lendgetw par tree]
         |x| { R!(x a C6); R!(x b C8); let nb = BitSetNot(&x.b2); } => (&nb, &a, (!&b).maybe());
     s44 "S44" "c15 m14 Bb0" [seq lend lendfe]
+
         |x| { } => (std::mem::take(&mut x.cs15), &mut x.cs14, &x.b0);
     // ---- arity 5 -----------------------------------------------------------------------------------------
-    s45 "S45" "e s0 m3 ?s5 n7" [seq lend lendfe lendget par tree]
+    s45 "S45" "e s0 m3 ?s5 n7" [seq lend lendfe lendget lendgetw par tree]
         |x| { E!(x en); R!(x a C0); W!(x b C3); R!(x c C5); R!(x d C7); }
         => (&en, &a, &mut b, (&c).maybe(), !&d);
-    s46 "S46" "s1 s2 BM4 r6 m8" [seq lend lendfe lendget par tree]
+    s46 "S46" "s1 s2 BM4 r6 m8" [seq lend lendfe lendget lendgetw par tree]
         |x| { R!(x a C1); R!(x b C2); R!(x c C4); R!(x d C6); W!(x f C8); let rd = d.restrict(); }
         => (&a, &b, c.mask(), &rd, &mut f);
     s47 "S47" "m12 s13 ?m0 w2 d4" [seq lend lendfe]
+
         |x| { W!(x a C12); R!(x b C13); W!(x c C0); W!(x d C2); W!(x f C4); let mut wd = d.restrict_mut(); }
         => (&mut a, &b, (&mut c).maybe(), &mut wd, f.drain());
-    s48 "S48" "t1 e s14 ?m15 n0" [lend lendfe lendget]
+    s48 "S48" "t1 e s14 ?m15 n0" [lend lendfe lendget lendgetw]
         |x| { W!(x a C1); E!(x en); R!(x b C0); }
         => (a.entries(), &en, &x.cs14, (&mut x.cs15).maybe(), !&b);
     // ---- arity 8 -----------------------------------------------------------------------------------------
-    s49 "S49" "e s0 s1 m2 m3 ?s4 n5 Bb0" [seq lend lendfe lendget par tree]
+    s49 "S49" "e s0 s1 m2 m3 ?s4 n5 Bb0" [seq lend lendfe lendget lendgetw par tree]
         |x| { E!(x en); R!(x a C0); R!(x b C1); W!(x c C2); W!(x d C3); R!(x f C4); R!(x g C5); }
         => (&en, &a, &b, &mut c, &mut d, (&f).maybe(), !&g, &x.b0);
-    s50 "S50" "s6 m7 r8 w9 ?m10 n11 BAM0M1 e" [seq lend lendfe lendget par tree]
+    s50 "S50" "s6 m7 r8 w9 ?m10 n11 BAM0M1 e" [seq lend lendfe lendget lendgetw par tree]
         |x| { R!(x a C6); W!(x b C7); R!(x c C8); W!(x d C9); W!(x f C10); R!(x g C11); R!(x p C0); R!(x q C1); E!(x en);
               let rc = c.restrict(); let mut wd = d.restrict_mut(); }
         => (&a, &mut b, &rc, &mut wd, (&mut f).maybe(), !&g, BitSetAnd(p.mask(), q.mask()), &en);
-    s51 "S51" "s12 m13 t0 ?s14 m15 e n1 BNb3" [lend lendfe lendget]
+    s51 "S51" "s12 m13 t0 ?s14 m15 e n1 BNb3" [lend lendfe lendget lendgetw]
         |x| { R!(x a C12); W!(x b C13); W!(x c C0); E!(x en); R!(x d C1); }
         => (&a, &mut b, c.entries(), (&x.cs14).maybe(), &mut x.cs15, &en, !&d, BitSetNot(&x.b3));
     // ---- arity 15 ----------------------------------------------------------------------------------------
-    s52 "S52" "s0 s0 e s1 ?s2 n3 m4 s5 ?m6 Bb0 BM7 s8 s8 n11 e" [seq lend lendfe lendget par tree]
+    s52 "S52" "s0 s0 e s1 ?s2 n3 m4 s5 ?m6 Bb0 BM7 s8 s8 n11 e" [seq lend lendfe lendget lendgetw par tree]
         |x| { R!(x a C0); E!(x en); R!(x b C1); R!(x c C2); R!(x d C3); W!(x f C4); R!(x g C5); W!(x p C6);
               R!(x q C7); R!(x r C8); R!(x s C11); }
         => (&a, &a, &en, &b, (&c).maybe(), !&d, &mut f, &g, (&mut p).maybe(), &x.b0, q.mask(), &r, &r, !&s, &en);
-    s53 "S53" "s12 s0 m13 s14 ?s15 e s1 s1 n2 ?n3 r4 w5 BOb0b1 ?Bb2 s10" [seq lend lendfe lendget]
+    s53 "S53" "s12 s0 m13 s14 ?s15 e s1 s1 n2 ?n3 r4 w5 BOb0b1 ?Bb2 s10" [seq lend lendfe lendget lendgetw]
         |x| { R!(x a C12); R!(x b C0); W!(x c C13); E!(x en); R!(x d C1); R!(x f C2); R!(x g C3); R!(x p C4);
               W!(x q C5); R!(x r C10); let rp = p.restrict(); let mut wq = q.restrict_mut(); }
         => (&a, &b, &mut c, &x.cs14, (&x.cs15).maybe(), &en, &d, &d, !&f, (!&g).maybe(), &rp, &mut wq,
             BitSetOr(&x.b0, &x.b1), (&x.b2).maybe(), &r);
     // ---- arity 16 ----------------------------------------------------------------------------------------
-    s54 "S54" "e s0 s0 s1 s1 m2 ?s3 n4 s5 ?m6 s7 s8 s9 s10 BM0 BNb1" [seq lend lendfe lendget par tree]
+    s54 "S54" "e s0 s0 s1 s1 m2 ?s3 n4 s5 ?m6 s7 s8 s9 s10 BM0 BNb1" [seq lend lendfe lendget lendgetw par tree]
         |x| { E!(x en); R!(x a C0); R!(x b C1); W!(x c C2); R!(x d C3); R!(x f C4); R!(x g C5); W!(x p C6);
               R!(x q C7); R!(x r C8); R!(x s C9); R!(x t C10); }
         => (&en, &a, &a, &b, &b, &mut c, (&d).maybe(), !&f, &g, (&mut p).maybe(), &q, &r, &s, &t, a.mask(),
             BitSetNot(&x.b1));
-    s55 "S55" "s0 m12 s13 s14 m15 e e ?s1 ??s2 n3 r4 w5 s6 s7 BXb0b1 s10" [seq lend lendfe lendget]
+    s55 "S55" "s0 m12 s13 s14 m15 e e ?s1 ??s2 n3 r4 w5 s6 s7 BXb0b1 s10" [seq lend lendfe lendget lendgetw]
         |x| { R!(x a C0); W!(x b C12); R!(x c C13); E!(x en); R!(x d C1); R!(x f C2); R!(x g C3); R!(x p C4);
               W!(x q C5); R!(x r C6); R!(x s C7); R!(x t C10); let rp = p.restrict(); let mut wq = q.restrict_mut(); }
         => (&a, &mut b, &c, &x.cs14, &mut x.cs15, &en, &*en, (&d).maybe(), (&f).maybe().maybe(), !&g, &rp, &mut wq,
             &r, &s, BitSetXor(&x.b0, &x.b1), &t);
-    s56 "S56" "t3 e s0 s1 s2 ?m4 n5 s6 s7 s8 s9 ?s10 s11 s12 ?m13 Bb3" [lend lendfe lendget]
+    s56 "S56" "t3 e s0 s1 s2 ?m4 n5 s6 s7 s8 s9 ?s10 s11 s12 ?m13 Bb3" [lend lendfe lendget lendgetw]
         |x| { W!(x a C3); E!(x en); R!(x b C0); R!(x c C1); R!(x d C2); W!(x f C4); R!(x g C5); R!(x p C6);
               R!(x q C7); R!(x r C8); R!(x s C9); R!(x t C10); R!(x u C11); R!(x v C12); W!(x w C13); }
         => (a.entries(), &en, &b, &c, &d, (&mut f).maybe(), !&g, &p, &q, &r, &s, (&t).maybe(), &u, &v,
